@@ -8,6 +8,7 @@
 
 int g_b0, g_b1, g_b2, g_b3;      /* the bytes of the character consumed last */
 int g_prevch;                    /* the character before g_cur, -1 if none */
+int g_e0, g_e1, g_e2, g_e3;      /* universally quantified bytes for the INVALID_UTF8 postcondition */
 #define WFLEN_B U_WFLEN(g_b0, g_b1, g_b2, g_b3)
 /* EEAV_LPART_INVALID_UTF8: stating "no well-formed sequence starts at g_pos" here needs four more symbolic reads of the
    input, which made this job run out of memory (> 20 GB).  The postcondition therefore says that the decoder stopped inside
@@ -44,6 +45,12 @@ __CPROVER_ensures(__CPROVER_return_value == 0 || __CPROVER_return_value == -EEAV
 __CPROVER_ensures((__CPROVER_return_value == -EEAV_LPART_EMPTY) == (g_len == 0))
 /* ... and the byte there is not ASCII (an ASCII byte always decodes); one symbolic read, affordable */
 __CPROVER_ensures((__CPROVER_return_value == -EEAV_LPART_INVALID_UTF8) ==> (g_pos < g_len && BYTE_AT(start + g_pos) >= 0x80))
+#ifdef WF_POST
+/* ... and no well-formed sequence starts there (Unicode Table 3-7): g_e0..g_e3 are universally quantified, each bound to one
+   read of the input */
+__CPROVER_ensures((__CPROVER_return_value == -EEAV_LPART_INVALID_UTF8 && g_e0 == BYTE_K(start, g_pos, g_len) && g_e1 == BYTE_K(start, g_pos + 1, g_len) &&
+        g_e2 == BYTE_K(start, g_pos + 2, g_len) && g_e3 == BYTE_K(start, g_pos + 3, g_len)) ==> U_WFLEN(g_e0, g_e1, g_e2, g_e3) == 0)
+#endif
 __CPROVER_ensures(__CPROVER_return_value == -EEAV_LPART_CTRL_CHAR ==> (g_cur >= 0 && (g_cur < 32 || g_cur == 127)))
 __CPROVER_ensures(__CPROVER_return_value == -EEAV_LPART_TOO_MANY_DOTS ==> (g_cur == '.' && g_prevch == '.' && g_pos >= 2))
 __CPROVER_ensures(__CPROVER_return_value == -EEAV_LPART_MISPLACED_DOT ==> (g_cur == '.' && (g_prevch == -1 || g_pos == g_len)))
